@@ -3,7 +3,7 @@ CONSTANTS
   Calls = {1, 2, 3}
   Hashes <- ModelHashes2
   MaxLanes = 1
-  Kinds = {"line", "pchan"}
+  Kinds = {"line"}
   LaneCounts = {1}
   QSizes = {1}
   HashBits = 3
